@@ -1,7 +1,8 @@
 (* The External Term Format as a relation between Erlang values and byte strings (erl_ext_dist): every form a
    conforming peer may use for a value — minimal or not, modern or legacy.  Not covered by this relation: maps (the
-   decoder's key order merges keys: recorded findings C03-map-numeric-keys and C03-map-list-improper-keys), compressed terms, the textual FLOAT_EXT,
-   and the two context-dependent tags (LOCAL_EXT, ATOM_CACHE_REF), which have their own theorems.  Definitions only. *)
+   decoder's key order merges keys: recorded findings C03-map-numeric-keys and C03-map-list-improper-keys), compressed terms and the textual FLOAT_EXT
+   (they depend on zlib and on the float parser, which are oracles of the decoder's configuration: SpecFacts.compressed_sound,
+   float_text_sound), and the two context-dependent tags (LOCAL_EXT, ATOM_CACHE_REF), which have their own theorems.  Definitions only. *)
 From EDP Require Import Base.Bytes Term.Term Term.Value Gen.Limits Codec.Decode.
 
 (* OldIndex / OldUniq of NEW_FUN_EXT: SMALL_INTEGER_EXT or a non-negative INTEGER_EXT *)
